@@ -293,6 +293,60 @@ fn sql_of_value(v: &SqlValue) -> Option<String> {
     }
 }
 
+/// `normalize_for_comparison` of the index layer: every numeric variant as f64
+fn index_norm(v: &SqlValue) -> SqlValue {
+    match v {
+        SqlValue::Integer(i) | SqlValue::Bigint(i) => SqlValue::Double(*i as f64),
+        SqlValue::Smallint(i) => SqlValue::Double(*i as f64),
+        SqlValue::Unsigned(u) => SqlValue::Double(*u as f64),
+        SqlValue::Float(f) | SqlValue::Real(f) => SqlValue::Double(*f as f64),
+        SqlValue::Numeric(f) | SqlValue::Double(f) => SqlValue::Double(*f),
+        other => other.clone(),
+    }
+}
+
+/// would this row (inserted through the storage API, which checks nothing) put a duplicate NULL-free key under a
+/// UNIQUE index?  Such a state is not a database the SQL layer can produce and is not generated.
+fn violates_unique(db: &Database, table_key: &str, vals: &[SqlValue]) -> bool {
+    let Some(t) = db.get_table(table_key) else { return false };
+    for n in db.list_indexes() {
+        let Some(m) = db.get_index(&n) else { continue };
+        if !m.unique || m.table_name.to_uppercase() != table_key.to_uppercase() {
+            continue;
+        }
+        let idxs: Vec<usize> = m.columns.iter().filter_map(|c| t.schema.get_column_index(&c.column_name)).collect();
+        // the value as Table::insert will store it (CHAR(n) padded / cut by characters, VARCHAR(n) cut)
+        let stored = |i: usize| -> SqlValue {
+            match (&vals[i], &t.schema.columns[i].data_type) {
+                (SqlValue::Character(s), DataType::Character { length }) => {
+                    let n = s.chars().count();
+                    let mut out: String = s.chars().take(*length).collect();
+                    if n < *length {
+                        out.extend(std::iter::repeat(' ').take(*length - n));
+                    }
+                    SqlValue::Character(out)
+                }
+                (SqlValue::Varchar(s), DataType::Varchar { max_length: Some(m) }) if s.len() > *m => {
+                    let mut e = *m;
+                    while !s.is_char_boundary(e) {
+                        e -= 1;
+                    }
+                    SqlValue::Varchar(s[..e].to_string())
+                }
+                (v, _) => v.clone(),
+            }
+        };
+        let key: Vec<SqlValue> = idxs.iter().map(|&i| index_norm(&stored(i))).collect();
+        if key.contains(&SqlValue::Null) {
+            continue;
+        }
+        if t.scan().iter().any(|r| idxs.iter().map(|&i| index_norm(&r.values[i])).collect::<Vec<_>>() == key) {
+            return true;
+        }
+    }
+    false
+}
+
 struct Built {
     db: Database,
     history: Vec<String>,
@@ -355,6 +409,9 @@ fn build_db(r: &mut Rng, id: u64) -> Built {
                 match lits {
                     Some(l) if simple_types && !exotic => {
                         step(&mut db, format!("INSERT INTO {} VALUES ({})", tname, l.join(", ")), &mut hist);
+                    }
+                    _ if violates_unique(&db, &key, &vals) => {
+                        hist.push(format!("[skipped: duplicate key under a UNIQUE index] insert_row({}, {:?})", key, vals));
                     }
                     _ => {
                         let res = catch_unwind(AssertUnwindSafe(|| db.insert_row(&key, Row::new(vals.clone())).is_ok())).unwrap_or(false);
